@@ -1,0 +1,24 @@
+//! Verification hooks: run the generator on an arbitrary shape without touching the
+//! filesystem. Compiled only with the `verif_hooks` feature.
+use codegen::Scope;
+use json_shape::JsonShape;
+
+/// Renders the items generated for `shape` (what `compile_json` returns).
+#[must_use]
+pub fn render(shape: &JsonShape) -> String {
+    let mut scope = Scope::new();
+    crate::first_pass(shape, &mut scope);
+    scope.to_string()
+}
+
+/// The generated type name of `shape`.
+#[must_use]
+pub fn shape_name(shape: &JsonShape) -> String {
+    crate::shape_name(shape)
+}
+
+/// The generated type expression of `shape`.
+#[must_use]
+pub fn shape_representation(shape: &JsonShape) -> String {
+    crate::shape_representation(shape)
+}
